@@ -203,9 +203,12 @@ def gen_C01(rng, tier):
     elif rng.random() < 0.2:
         # message duplication: ACK / READY messages some worker already sent arrive a second time
         if pc.get('timeout') is None and rng.random() < 0.7:
-            add_map(rng, c, ops, kind=rng.choice(['map', 'imap', 'imap_unordered']), n=rng.choice([2, 4, 6]),
+            # (first, so that its parts are in progress while the duplicates arrive)
+            pre = []
+            add_map(rng, c, pre, kind=rng.choice(['map', 'imap', 'imap_unordered']), n=rng.choice([4, 6, 9]),
                     chunks=rng.choice([1, 2]), fail=rng.choice([0, 0, 0.3]))
-        case['users'].append([['dup', rng.randint(1, 4), rng.choice([0.001, 0.01, 0.1, 0.5])]])
+            ops[0:0] = pre
+        case['users'].append([['dup', rng.randint(1, 5), rng.choice([0.001, 0.01, 0.1, 0.3])]])
     return case
 
 
